@@ -140,7 +140,7 @@ Section Msg.
   (* the keys of a map: integers, bool or string, pairwise different *)
   Definition is_key_kind (k : skind) : Prop :=
     match k with
-    | KDouble | KFloat | KBytes | KEnum _ | KMsg _ => False
+    | KDouble | KFloat | KBytes | KEnum _ _ | KMsg _ => False
     | _ => True
     end.
 
